@@ -15,6 +15,8 @@ What the extraction drops or changes (exhaustive list, also printed into every e
   with a capacity assertion (model bound); std::array<T,N> -> struct {T e[N]}.
 """
 import json, os, re, sys, subprocess, hashlib
+sys.path.insert(0, os.path.dirname(os.path.abspath(__file__)))
+import fpx
 
 sys.setrecursionlimit(10000)
 REPO = os.environ.get('GWB_REPO', '/repo')
@@ -314,6 +316,8 @@ class Translator:
         self.vec_types = {}
         self.arr_types = {}
         self.tmp_counter = 0
+        self.outline = bool(self.cfg.get('outline_fp'))
+        self.fp_decls = {}
 
     # ------------------------------------------------------------------ type translation
     def ctype(self, qt, tu, node=None):
@@ -361,7 +365,7 @@ class Translator:
             name = 'vec_%s' % self._abbr(el)
             if name not in self.type_seen:
                 self.type_seen[name] = True
-                self.type_defs.append((name, 'struct %s { %s *data; size_t n; size_t cap; };' % (name, el.c)))
+                self.type_defs.append((name, 'struct %s { %s data[WB_CAP_%s]; size_t n; };' % (name, el.c, name)))
                 self.vec_types[name] = el
             return CType('struct ' + name, 'vector', elem=el, name=name)
         m = re.match(r'^std::(unique_ptr|shared_ptr)<(.*)>$', t)
@@ -678,12 +682,16 @@ class Translator:
     def emit(self):
         out = ['/* generated by cxx2c from %s -- do not edit */' % REPO, '#include "wbshim.h"']
         for name, text in self.type_defs:
+            if name in self.vec_types:
+                out.append('#ifndef WB_CAP_%s\n#define WB_CAP_%s WB_VEC_CAP\n#endif' % (name, name))
             out.append(text)
         for name, el in self.vec_types.items():
             out.append('WB_VEC_SHIMS(%s, %s)' % (name, el.c))
             if el.kind == 'scalar':
                 out.append('WB_VEC_SHIMS_SCALAR(%s, %s)' % (name, el.c))
         for name, text in self.global_consts.items():
+            out.append(text)
+        for name, text in self.fp_decls.items():
             out.append(text)
         for cn in self.order:
             out.append(self.funcs[cn]['proto'] + ';')
@@ -837,6 +845,7 @@ class FunctionBody:
             i = self.expr(inc) if inc and inc.get('kind') else ''
             self.no_hoist -= 1
             self.loop_no += 1
+            out.append(I + '  /*@PRELOOP %s %d@*/' % (self.info['cname'], self.loop_no))
             out.append(I + '  for (; %s; %s)' % (c, i))
             ln = self.loop_no
             out.append(I + '  /*@LOOP %s %d@*/' % (self.info['cname'], ln))
@@ -851,7 +860,7 @@ class FunctionBody:
             self.no_hoist -= 1
             self.loop_no += 1
             ln = self.loop_no
-            return [I + 'while (%s)' % c, I + '/*@LOOP %s %d@*/' % (self.info['cname'], ln)] + self.loop_body(body, ind, ln)
+            return [I + '/*@PRELOOP %s %d@*/' % (self.info['cname'], ln), I + 'while (%s)' % c, I + '/*@LOOP %s %d@*/' % (self.info['cname'], ln)] + self.loop_body(body, ind, ln)
         if k == 'DoStmt':
             body, cond = n['inner']
             if cond.get('kind') == 'CXXBoolLiteralExpr' and not cond.get('value'):
@@ -863,7 +872,7 @@ class FunctionBody:
             self.no_hoist -= 1
             self.loop_no += 1
             ln = self.loop_no
-            return [I + 'do', I + '/*@LOOP %s %d@*/' % (self.info['cname'], ln)] + self.loop_body(body, ind, ln) + [I + 'while (%s);' % c]
+            return [I + '/*@PRELOOP %s %d@*/' % (self.info['cname'], ln), I + 'do', I + '/*@LOOP %s %d@*/' % (self.info['cname'], ln)] + self.loop_body(body, ind, ln) + [I + 'while (%s);' % c]
         if k == 'SwitchStmt':
             inner = [c for c in n['inner'] if c.get('kind')]
             pre, c = self.with_pre(lambda: [self.expr(inner[0])])
@@ -966,7 +975,7 @@ class FunctionBody:
             return self.block(pre, [I + '%s *%s = %s;' % (ct.c, name, v[0])], ind)
         if not inner:
             if ct.kind == 'vector':
-                return [I + '%s %s = WB_VEC_NEW(%s);' % (ct.c, name, ct.elem.c)]
+                return [I + '%s %s; %s.n = 0;' % (ct.c, name, name)]
             if ct.kind in ('record',):
                 # default construction of a user record: needs its default ctor
                 return [I + '%s %s = {0};' % (ct.c, name)] if self.trivial_default(ct) else brk('default ctor of %s' % ct.c, d)
@@ -1009,6 +1018,7 @@ class FunctionBody:
             elem = '%s->e[%s]' % (rp, idx)
         else:
             brk('range-for over %s' % rt.c, n)
+        out.append(I + '  /*@PRELOOP %s %d@*/' % (self.info['cname'], ln))
         out.append(I + '  for (size_t %s = 0; %s < %s; ++%s)' % (idx, idx, bound, idx))
         out.append(I + '  /*@LOOP %s %d@*/' % (self.info['cname'], ln))
         if vt.ref:
@@ -1063,8 +1073,92 @@ class FunctionBody:
         suf = {'unsigned int': 'u', 'unsigned long': 'ul', 'long': 'l', 'unsigned long long': 'ull', 'long long': 'll'}.get(strip_cv(t), '')
         return v + suf
 
+    # -- floating-point outlining (see fpx.py): maximal + - * / neg libm trees become named symbols
+    def is_double(self, n):
+        return strip_cv(self.qt(n)) == 'double'
+
+    def fp_strip(self, n):
+        while True:
+            k = n.get('kind')
+            if k in ('ParenExpr', 'ExprWithCleanups', 'MaterializeTemporaryExpr', 'CXXBindTemporaryExpr'):
+                n = n['inner'][0]
+            elif k == 'ImplicitCastExpr' and n.get('castKind') == 'NoOp':
+                n = n['inner'][0]
+            else:
+                return n
+
+    def libm_call(self, n):
+        if n.get('kind') != 'CallExpr':
+            return None
+        c = self.strip(n['inner'][0])
+        if c.get('kind') != 'DeclRefExpr':
+            return None
+        rd = c['referencedDecl']
+        if rd['id'] in self.tu.by_id:
+            return None
+        args = [a for a in n['inner'][1:] if a.get('kind') != 'CXXDefaultArgExpr']
+        if (rd['name'] in LIBM1 and len(args) == 1) or (rd['name'] in LIBM2 and len(args) == 2):
+            if all(self.is_double(a) for a in args):
+                return rd['name'], args
+        return None
+
+    def fp_struct(self, n, atoms):
+        m = self.fp_strip(n)
+        k = m.get('kind')
+        if k == 'BinaryOperator' and m.get('opcode') in ('+', '-', '*', '/') and self.is_double(m):
+            l = self.fp_struct(m['inner'][0], atoms)
+            r = self.fp_struct(m['inner'][1], atoms)
+            return (fpx.OPN[m['opcode']], l, r)
+        if k == 'UnaryOperator' and m.get('opcode') == '-' and self.is_double(m):
+            x = self.fp_struct(m['inner'][0], atoms)
+            if x[0] == 'k':
+                return ('k', -float(x[1]))
+            return ('neg', x)
+        if k == 'FloatingLiteral':
+            return ('k', float(m['value']))
+        if k in ('ImplicitCastExpr', 'CStyleCastExpr', 'CXXStaticCastExpr', 'CXXFunctionalCastExpr') and \
+                m.get('castKind') == 'IntegralToFloating' and self.is_double(m):
+            i = self.strip(m['inner'][0])
+            while i.get('kind') in ('ImplicitCastExpr',) and i.get('castKind') in ('IntegralCast',):
+                i = self.strip(i['inner'][0])
+            if i.get('kind') == 'IntegerLiteral':
+                return ('k', float(int(i['value'])))
+        lc = self.libm_call(m)
+        if lc:
+            self.tr.shim_used.add('libm:' + lc[0])
+            return ('fn', lc[0]) + tuple(self.fp_struct(a, atoms) for a in lc[1])
+        atoms.append(m)
+        return ('a',)
+
+    def fp_root(self, n):
+        m = self.fp_strip(n)
+        k = m.get('kind')
+        if k == 'BinaryOperator' and m.get('opcode') in ('+', '-', '*', '/') and self.is_double(m):
+            return True
+        if k == 'UnaryOperator' and m.get('opcode') == '-' and self.is_double(m):
+            return True
+        return self.libm_call(m) is not None
+
+    def fp_emit(self, s, atom_texts):
+        name = fpx.symbol(s)
+        self.tr.fp_decls[name] = fpx.declaration(name, s)
+        return '%s(%s)' % (name, ', '.join(atom_texts))
+
+    def try_outline(self, n):
+        if not self.tr.outline or not self.fp_root(n):
+            return None
+        atoms = []
+        s = self.fp_struct(n, atoms)
+        if fpx.weight(s) == 0:
+            return None
+        return self.fp_emit(s, [self.expr(a) for a in atoms])
+
     def expr(self, n, stmt=False):
         k = n.get('kind')
+        if self.tr.outline and k in ('BinaryOperator', 'UnaryOperator', 'CallExpr', 'ParenExpr'):
+            o = self.try_outline(n)
+            if o is not None:
+                return o
         m = getattr(self, 'e_' + k, None)
         if m is None:
             brk('expression kind outside the translated subset', n)
@@ -1227,6 +1321,15 @@ class FunctionBody:
 
     def e_CompoundAssignOperator(self, n, stmt=False):
         l, r = n['inner']
+        if self.tr.outline and self.is_double(l) and n['opcode'] in ('+=', '-=', '*=', '/=') and self.is_double(n):
+            atoms = []
+            rs = self.fp_struct(r, atoms)
+            s_ = (fpx.OPN[n['opcode'][0]], ('a',), rs)
+            if fpx.weight(s_) > 0:
+                le = self.expr(l)
+                call = self.fp_emit(s_, [le] + [self.expr(a) for a in atoms])
+                txt = '%s = %s' % (le, call)
+                return txt if stmt else '(' + txt + ')'
         s = '%s %s %s' % (self.expr(l), n['opcode'], self.expr(r))
         return s if stmt else '(' + s + ')'
 
@@ -1319,7 +1422,7 @@ class FunctionBody:
         if ct.kind == 'vector':
             real = [a for a in args if a.get('kind') != 'CXXDefaultArgExpr']
             if len(real) == 0:
-                return 'WB_VEC_NEW(%s)' % ct.elem.c
+                return '%s_new_empty()' % ct.name
             if len(real) == 2 and self.ct(real[0]).kind == 'scalar':
                 self.tr.shim_used.add('vec_fill')
                 return '%s_new_fill(%s, %s)' % (ct.name, self.expr(real[0]), self.expr(real[1]))
@@ -1574,9 +1677,9 @@ class FunctionBody:
             if name in ('push_back', 'emplace_back') and len(a) == 1:
                 return '%s_push(&%s, %s)' % (ot.name, o, self.expr(a[0]))
             if name in ('front',) and not a:
-                return '%s.data[0]' % o
+                return '%s.data[wb_idx(0, %s.n)]' % (o, o)
             if name in ('back',) and not a:
-                return '%s.data[%s.n - 1]' % (o, o)
+                return '%s.data[wb_idx(%s.n - 1, %s.n)]' % (o, o, o)
             if name == 'data' and not a:
                 return '%s.data' % o
             if name == 'begin' and not a:
@@ -1593,7 +1696,7 @@ class FunctionBody:
             if name == 'clear' and not a:
                 return '%s.n = 0' % o
             if name == 'at' and len(a) == 1:
-                return '%s.data[%s]' % (o, self.expr(a[0]))
+                return '%s.data[wb_idx(%s, %s.n)]' % (o, self.expr(a[0]), o)
         if ot.kind == 'array':
             if name == 'size' and not a:
                 return '%dul' % ot.n
@@ -1633,7 +1736,7 @@ class FunctionBody:
             o = self.expr(args[0])
             i = self.expr(args[1])
             if t0.kind == 'vector':
-                return '%s.data[%s]' % (o, i)
+                return '%s.data[wb_idx(%s, %s.n)]' % (o, i, o)
             if t0.kind == 'array':
                 return '%s.e[%s]' % (o, i)
         if opname in ('operator->', 'operator*') and t0.kind == 'ptr':
@@ -1713,10 +1816,11 @@ if __name__ == '__main__':
     ap.add_argument('--cname')
     ap.add_argument('--stub', action='append', default=[])
     ap.add_argument('--alias', action='append', default=[], help='qual|sig=cname')
+    ap.add_argument('--outline', action='store_true')
     a = ap.parse_args()
     aliases = dict(x.rsplit('=', 1) for x in a.alias)
     try:
-        tr = translate([dict(tu=a.tu, qual=a.qual, sig=a.sig, cname=a.cname)], dict(stub=a.stub, aliases=aliases))
+        tr = translate([dict(tu=a.tu, qual=a.qual, sig=a.sig, cname=a.cname)], dict(stub=a.stub, aliases=aliases, outline_fp=a.outline))
         sys.stdout.write(tr.emit())
         for d in sorted(set(tr.dropped)):
             sys.stderr.write('dropped: %s\n' % d)
